@@ -42,7 +42,7 @@ pub struct Debug<'a, P> {
 }
 impl<'a, P: Pe<'a>> Debug<'a, P> {
 	pub(crate) fn try_from(pe: P) -> Result<Debug<'a, P>> {
-		let datadir = pe.data_directory().get(IMAGE_DIRECTORY_ENTRY_DEBUG).ok_or(Error::Bounds)?;
+		let datadir = pe.data_directory().get(IMAGE_DIRECTORY_ENTRY_DEBUG).ok_or(Error::Null)?;
 		let (len, rem) = (
 			datadir.Size as usize / mem::size_of::<IMAGE_DEBUG_DIRECTORY>(),
 			datadir.Size as usize % mem::size_of::<IMAGE_DEBUG_DIRECTORY>(),
